@@ -79,11 +79,18 @@ def t_has(t, leaf):
     return any(t_has(x, leaf) for x in t[1:])
 
 
+_VALID_CACHE = {}
+
+
 def valid_trees(n, leaves):
-    """Trees with exactly n nodes in which every `$` is admissible."""
+    """Trees with exactly n nodes in which every `$` is admissible (cached list; do not modify)."""
     if "$" not in leaves:
         return trees(n, leaves)
-    return [t for t in trees(n, leaves) if t_dollar_ok(t)]
+    key = (n, tuple(leaves))
+    r = _VALID_CACHE.get(key)
+    if r is None:
+        r = _VALID_CACHE[key] = [t for t in trees(n, leaves) if t_dollar_ok(t)]
+    return r
 
 
 STYLES = ("spaced", "tight", "parens", "airy")
@@ -92,8 +99,10 @@ STYLES = ("spaced", "tight", "parens", "airy")
 def render(t, style="spaced", names=None):
     """Pattern text of a tree.  Concatenations inside alternations and
     alternations inside concatenations are always parenthesised (the pattern
-    language leaves precedence undefined); `parens` wraps every compound node,
-    `tight` uses the least whitespace, `airy` uses tabs/newlines."""
+    language leaves precedence undefined), and so is a left operand of the
+    same kind (which makes the rendering injective); `parens` wraps every
+    compound node, `tight` uses the least whitespace, `airy` uses
+    tabs/newlines."""
     names = names or {}
 
     def r(t, ctx):
